@@ -12,7 +12,7 @@ CHECKS = {
 
 CHECKS["C09"] = dict(
     level="exploration", design="DESIGN.md 3/C09",
-    technique="property-based testing: proptest-driven text mutators (byte/token/subtree mutants of the .cairo corpus, token soups, depth stressors) in crash-isolated worker processes; oracle: no panic / signal / CPU runaway, diagnostic spans inside their file",
+    technique="property-based testing: proptest-driven text mutators (byte/token/subtree mutants of the .cairo corpus, multi-byte comment insertion, token soups, attribute soups with generated argument lists, depth stressors) in crash-isolated worker processes; oracle: no panic / signal / CPU runaway, diagnostic spans inside their file",
     text="~64k (quick) / ~640k (thorough) generated texts go through lex+parse+format, a quarter of them also through semantic+lowering diagnostics with the corelib (Starknet plugins when the text mentions them). Panics are keyed by call site, process deaths are reproduced twice in fresh processes before they count. Exploration: totality over all texts cannot be enumerated; the oracle is exact per input.",
     note="Trusted: catch_unwind + subprocess isolation; 8 MiB stacks; CPU-time rule for runaways; inputs valid UTF-8 <= 16 KiB, nesting <= 200. Listed known findings (panic sites reachable with garbled contracts) are reported as KNOWN-FINDING.")
 CHECKS["C11"] = dict(
@@ -23,7 +23,7 @@ CHECKS["C11"] = dict(
 
 CHECKS["C01"] = dict(
     level="exploration", design="DESIGN.md 3/C01",
-    technique="property-based differential testing: type-directed random Cairo programs (own IR) x boundary/small/random inputs x compiler configurations, against an independent BigInt reference evaluator of the IR",
+    technique="property-based differential testing: type-directed random Cairo programs (own IR) x boundary/small/random inputs x compiler configurations, against an independent BigInt reference evaluator of the IR (the generator includes shuffle functions, specialisation wrappers and dispatcher functions aimed at return / specialisation optimisations)",
     text="1,536 (quick) / 20,480 (thorough) generated programs, each run on 8 argument vectors under the default and one drawn configuration (optimisations off, inlining strategies, const folding off, numeric-match thresholds; non-linear solvers on small programs): the Serde-serialised result or the panic data must equal the reference evaluator's outcome felt for felt. The entry point also returns a digest of all scalar variables and guarded identity/neighbour probes, so intermediate values are observable.",
     note="Trusted: the reference evaluator (oracle/eval.rs) as the statement of the documented semantics (corelib panic strings, truncated signed division, left-to-right evaluation, Serde layout); cairo-vm as the machine. Limited to the modelled subset (see DESIGN 2.2).")
 CHECKS["C02"] = dict(
@@ -38,8 +38,8 @@ CHECKS["C04"] = dict(
     note="Trusted: step count from the relocated trace outside the entry-code header; prices from ConstCost/token_gas_cost; memory holes unpriced (weaker, no false alarms). Solver Err = no metadata, skipped.")
 CHECKS["C17"] = dict(
     level="exploration", design="DESIGN.md 3/C17",
-    technique="property-based testing with trace invariants: per dynamic call frame ap_at_ret - ap_at_entry == declared ap change; statement ranges tile the bytecode; executed pcs are instruction boundaries in exactly one range",
-    text="~12k executions / ~400k checked call frames per quick run over generated programs (recursion, nested calls, loops) and corpus functions, alternating linear and non-linear ap-change solvers; static layout invariants checked for every compiled program.",
+    technique="property-based testing with trace invariants (per dynamic call frame ap_at_ret - ap_at_entry == declared ap change; statement ranges tile the bytecode; executed pcs are instruction boundaries in exactly one range), plus two metamorphic / differential parts for reachability of ap-relative values: store-elision mutants of compiled programs must keep their result, and generated Sierra data-flow programs with calls of unknown ap change must compute what an own evaluation of the data flow prescribes",
+    text="~12k executions / ~400k checked call frames per quick run over generated programs (recursion, nested calls, loops) and corpus functions, alternating linear and non-linear ap-change solvers; static layout invariants checked for every compiled program; ~16k store-elision mutants (store_temp -> rename, store_local -> drop + rename; ~400 accepted and compared) and ~850 generated data-flow programs (~80 accepted and compared) per quick run.",
     note="Trusted: frames are delimited by call/ret of the compiled instruction list (pcs beyond it - const segments, footer - are bare rets).")
 
 CHECKS["C05"] = dict(
@@ -52,7 +52,7 @@ CHECKS["C06"] = dict(
     level="exploration", design="DESIGN.md 3/C06",
     technique="exhaustive enumeration (all 65,536 operand pairs of u8 and i8) + boundary cross products + seeded random operands for wider types, against a BigInt model of every operation",
     text="~1M executions per quick run: for each of u8..u128, i8..i128, u256, felt252 a generated crate exposes the operator forms (+ - * / %, unary -) and a batch of overflowing/wrapping/checked/saturating variants, comparisons, bitwise ops, sqrt, wide_mul, div_rem, felt252_div and try_into to every other type; results and panic data are compared with the mathematical model. The 8-bit slice is exhaustive; wider types are explored on boundary sets (2^k, 2^k+-1, MIN/MAX+-d, perfect squares +-1) and random operands.",
-    note="Trusted: the BigInt model in props/c06.rs (which panic / None / overflow flag is due when). Level is exploration overall; the evidence names the exhaustive slice separately. BoundedInt helper impls and the u512 family are not covered yet.")
+    note="Trusted: the BigInt model in props/c06.rs (which panic / None / overflow flag is due when). Level is exploration overall; the evidence names the exhaustive slice separately. BoundedInt division (bounded_int::div_rem over boundary dividend ranges and all unsigned divisor types) is covered by a generated family; the other BoundedInt helpers and the u512 family are not.")
 
 CHECKS["C07"] = dict(
     level="exploration", design="DESIGN.md 3/C07",
@@ -63,11 +63,11 @@ CHECKS["C07"] = dict(
 CHECKS["C14"] = dict(
     level="exploration", design="DESIGN.md 3/C14",
     technique="mutation-based fuzzing of Sierra programs (enumerated single-point mutants + proptest multi-point mutants + mutated felt serialisations) through registry / metadata / compile in crash-isolated workers; oracle: every entry point returns (no panic, abort or runaway)",
-    text="~575k mutants per quick run: single-point mutations of every corpus Sierra program <= 400 statements (thinned cross products; complete in thorough), multi-point mutants and felt vectors through extract_sierra_program; stages ProgramRegistryInfo::new, calc_metadata (linear, non-linear on small programs), calc_metadata_ap_change_only, compile with and without gas checks. Panics are keyed by call site; listed panic sites are reported as KNOWN-FINDING and the search continues past them.",
+    text="~575k mutants per quick run: single-point mutations of every corpus Sierra program <= 400 statements (thinned cross products; complete in thorough), libfunc instantiations (every generic libfunc of the corpus with 1-3 type arguments over a pool of 28 boundary types), multi-point mutants and format-aware felt vectors (compressed layer, value stream, whole vector) through extract_sierra_program; stages ProgramRegistryInfo::new, calc_metadata (linear, non-linear on small programs), calc_metadata_ap_change_only, compile with and without gas checks. Panics are keyed by call site; listed panic sites are reported as KNOWN-FINDING and the search continues past them.",
     note="Trusted: catch_unwind + subprocess isolation, 8 MiB stacks, 16 GiB address-space limit. One known shape (type-declaration cycle through a circuit gate: unbounded recursion) is excluded by construction and counted. Only programs that parse are mutated (the text parser is C18's).")
 CHECKS["C15"] = dict(
     level="exploration", design="DESIGN.md 3/C15",
-    technique="differential testing against an independent checker: accepted Sierra mutants (near-miss mutations of corpus programs) must pass my own worklist data-flow typing/linearity checker over the libfunc signatures",
+    technique="differential testing against an independent checker: accepted Sierra programs - near-miss mutants of corpus programs and generated diamonds (a branch, two independently generated arms, a merge, a tail) - must pass my own worklist data-flow typing/linearity checker over the libfunc signatures",
     text="~530k near-miss mutants per quick run, of which ~11k are accepted by the compiler and differ from their origin; each accepted one is re-checked for argument types, exact-once use, no overwrite, branch arity and alignment, merge agreement, return types with nothing left over and dup/drop legality. All 400+ unmutated corpus programs are the false-alarm control (a checker rejection there makes the run inconclusive).",
     note="Trusted: libfunc signatures from the program registry; my checker (oracle/sierra_check.rs) and its table of non-droppable / non-duplicable resource types. Reference expressions, ap tracking and gas are outside the checker (C17/C04 cover their consequences).")
 
@@ -98,7 +98,7 @@ CHECKS["C13"] = dict(
 CHECKS["C12"] = dict(
     level="exploration", design="DESIGN.md 3/C12",
     technique="metamorphic property-based testing over histories and schedules: each project is compiled in a fresh database plainly (one-thread pool) and in a second fresh database after a generated history of unrelated queries (other crates, shuffled per-function Sierra / lowering queries, partly concurrent on database snapshots) inside a rayon pool of 1/2/4/16 threads; every output must be byte-identical",
-    text="~500 projects per quick run (generated programs, e2e snippets, examples, a third of them with token mutations for non-empty diagnostics, one in eight a triple of Starknet test contracts); compared: diagnostics text, printed Sierra with debug names + statement annotations, canonical-id program, CASM text, ContractClass and CasmContractClass JSON. In ~85% of the cases the raw interned ids of the two runs differ, i.e. the history really permuted id allocation.",
+    text="~500 projects per quick run (generated programs, e2e snippets, examples, a third of them with token mutations for non-empty diagnostics, one in eight a triple of Starknet test contracts, one in five a hand-written template: mutual recursion, implicit precedence, generic traits, closures); compared: diagnostics text, printed Sierra with debug names + statement annotations, canonical-id program, CASM text, ContractClass and CasmContractClass JSON. In ~85% of the cases the raw interned ids of the two runs differ, i.e. the history really permuted id allocation.",
     note="The harness owns query order, snapshot concurrency and pool size, not thread interleavings inside a pool. Raw interned ids (also inside the JSON form of debug-name ids and in the annotations keyed by them) legitimately depend on the history and are not compared.")
 
 CHECKS["C20"] = dict(
@@ -116,7 +116,7 @@ CHECKS["C19"] = dict(
 CHECKS["C03"] = dict(
     level="exploration", design="DESIGN.md 3/C03",
     technique="fault-injection property-based testing: a wrapper around the honest hint processor rewrites, at one generated dynamic hint occurrence, the hint's output cells with a generated alternative value; metamorphic oracle: the run fails in the VM or its normalised result equals the honest run's",
-    text="~23,000 applied hint faults per quick run over 21 hint kinds (comparisons, divisions incl. u256 / u512, wide multiplication, square roots, linear split, inverse mod n, field square root, random EC point, dictionary squash loop hints, assert-le arcs), on e2e libfunc snippets, examples, a curated file of hint-rich corelib calls and generated programs; ~75% VM failures, ~24% same result, <1% aborts of the honest hint code.",
+    text="~23,000 applied hint faults per quick run over 21 hint kinds (comparisons, divisions incl. u256 / u512, wide multiplication, square roots, linear split, inverse mod n, field square root, random EC point, dictionary squash loop hints, assert-le arcs), on e2e libfunc snippets, examples, felt252 -> BoundedInt range reductions over boundary (L, U) pairs, a curated file of hint-rich corelib calls and generated programs; ~75% VM failures, ~24% same result, <1% aborts of the honest hint code.",
     note="Not faulted (stated limit): pointer-producing hints, hints writing into builtin / dictionary segments, DebugPrint, EvalCircuit, deprecated hints, syscalls. Gas differences are not violations.")
 
 PENDING_REASON = "check not built yet in this session (planned in DESIGN.md section 3; the property itself is amenable to the technique)"
